@@ -43,7 +43,10 @@ Judge(o) ==
               [] tag.prop = "C04" ->
                    ValidityComplaints(c.notBefore, c.notAfter, EffectiveV(tag.own, tag.prof), tag.tz, Civil(o.t0), Civil(o.t1))
               [] tag.prop = "C05" ->
-                   KeyComplaints(c, e.facts, tag.key) \cup SigAlgComplaints(c, tag.key, tag.sig)
+                   \* ownKey # "": the entity has a user-supplied key of that type and the configuration names neither key nor
+                   \* signature algorithm: "SHA-256 with the scheme of the entity's key type"
+                   IF "ownKey" \in DOMAIN tag /\ tag.ownKey # "" THEN SigAlgComplaints(c, tag.ownKey, "")
+                   ELSE KeyComplaints(c, e.facts, tag.key) \cup SigAlgComplaints(c, tag.key, tag.sig)
               [] tag.prop = "C06" ->
                    ExtListComplaints(c, EffectiveExts(tag.hasProfile, tag.pexts, tag.cexts))
                    \cup BitsComplaint(c.issuerUID, tag.iuid, "issuerUniqueID") \cup BitsComplaint(c.subjectUID, tag.suid, "subjectUniqueID")
